@@ -54,6 +54,7 @@ class Result:
         self.vccs = None
         self.program_steps = None
         self.replay = None       # dict when a counterexample was replayed
+        self.peak_rss_mb = 0     # sampled every 5 s over the harness' process group
 
 
 CHECK_RE = re.compile(r"^Check (\d+): (.+?)\s*$")
@@ -144,17 +145,30 @@ def run_one(h, ov, worker_dir, extra=None):
         if h.flavor == "nodebug":
             cmd[cmd.index("--target-dir") + 1] = worker_dir + "_nd"
         p = subprocess.Popen(cmd, cwd=cwd, env=env, stdout=fh, stderr=subprocess.STDOUT, preexec_fn=limits)
-        try:
-            rc = p.wait(timeout=h.timeout)
-            timed_out = False
-        except subprocess.TimeoutExpired:
-            timed_out = True
+        timed_out = False
+        rc = None
+        while True:
             try:
-                os.killpg(p.pid, signal.SIGKILL)
-            except ProcessLookupError:
+                rc = p.wait(timeout=5)
+                break
+            except subprocess.TimeoutExpired:
                 pass
-            p.wait()
-            rc = -9
+            # resident size of the whole process group (cargo-kani, kani-driver, cbmc)
+            try:
+                out = subprocess.run(["ps", "-o", "rss=", "-g", str(p.pid)], stdout=subprocess.PIPE, text=True).stdout
+                rss = sum(int(x) for x in out.split() if x.isdigit()) // 1024
+                res.peak_rss_mb = max(res.peak_rss_mb, rss)
+            except Exception:  # noqa: BLE001
+                pass
+            if time.time() - t0 > h.timeout:
+                timed_out = True
+                try:
+                    os.killpg(p.pid, signal.SIGKILL)
+                except ProcessLookupError:
+                    pass
+                p.wait()
+                rc = -9
+                break
     res.wall_s = time.time() - t0
     text = open(logp, errors="replace").read()
     if timed_out:
@@ -270,21 +284,21 @@ def schedule(hs, ov, jobs, tier):
         with lock:
             # budget by half the cap: the cap (RLIMIT_AS) is an upper bound on address space, the
             # typical resident size of a passing harness is a fraction of it
-            while state["mem"] + h.mem / 2.0 > TOTAL_MEM_GB and state["running"] > 0 or not free_workers:
+            while state["mem"] + h.budget() > TOTAL_MEM_GB and state["running"] > 0 or not free_workers:
                 lock.wait()
-            state["mem"] += h.mem / 2.0
+            state["mem"] += h.budget()
             state["running"] += 1
             w = free_workers.pop()
         try:
             r = run_one(h, ov, os.path.join(ov, "t%d" % w))
         finally:
             with lock:
-                state["mem"] -= h.mem / 2.0
+                state["mem"] -= h.budget()
                 state["running"] -= 1
                 free_workers.append(w)
                 lock.notify_all()
-        log("  [%s] %-44s %6.1fs solver %6.1fs wall  checks=%d covers=%d %s" % (
-            r.status.upper(), h.name, r.solver_s, r.wall_s, r.checks_total, len(r.covers), r.reason))
+        log("  [%s] %-44s %6.1fs solver %6.1fs wall %5d MB  checks=%d covers=%d %s" % (
+            r.status.upper(), h.name, r.solver_s, r.wall_s, r.peak_rss_mb, r.checks_total, len(r.covers), r.reason))
         return r
 
     with concurrent.futures.ThreadPoolExecutor(max_workers=jobs) as ex:
@@ -308,6 +322,7 @@ def write_evidence(prop, tier, results, wall, violations, notes, known_lines):
             "cover_points": r.covers,
             "solver_s": round(r.solver_s, 2),
             "wall_s": round(r.wall_s, 2),
+            "peak_rss_mb": r.peak_rss_mb,
             "vccs_after_simplification": r.vccs,
             "program_steps": r.program_steps,
         })
